@@ -48,9 +48,8 @@ def _ok_of_call(o, key):
     return o[0] == "ok" and peel(o[1])[0] == "call" and peel(o[1])[1] == key
 
 
-def r1(ctx, cfg):
+def r1(ctx, cfg, R="C09.R1"):
     F, P = cfg.facts, cfg.prov
-    R = "C09.R1"
     key = B + "send"
     f = ctx.need_fn(R, key)
     if f is None:
@@ -322,6 +321,38 @@ def r5(ctx, cfg):
                     all(peel(x)[0] == "agg" and peel(x)[1].endswith("Option::None") for x in a[2:4])
             ctx.ob(R, key, "supply-folds-all-balances", ok, "get_supply does not range over all of BALANCES", fn=g,
                    sample="BALANCES.range(bank_storage, None, None, ..)")
+            # what is summed: the amount of a held coin is added only where that coin's denomination has been compared equal
+            # with the queried one (an `if`, a `continue` on `!=`, a `.filter(..)` on the scan - one normal form), and the
+            # answer carries the queried denomination.  A summation without a recognisable "add elem.amount" site is a
+            # different spelling: NOT DECIDED (recorded, not reported)
+            sites = []
+            for b, t in g.calls():
+                if t["callee"]["local"]:
+                    continue
+                for x in P.call_args(g, t, b):
+                    px = peel(x)
+                    if px[0] == "field" and px[2] == "amount" and peel(px[1])[0] == "bound" and peel(px[1])[1] == "elem":
+                        sites.append((b, t, peel(px[1])))
+            bad = []
+            for b, t, e0 in sites:
+                ec = [c[1] for e, c in q.dominating_conditions(P, g, b) if c[0] == "bool" and not q.is_derived(c) and
+                      any(contains(x, lambda y: y[0] == "bound" and y[1] == "elem" and same_origin(y, e0)) for x in c[1][1])]
+                for nb, src in q.loops_yielding(P, g, e0):
+                    ec += [c[1] for e, c in q.filter_conditions(P, F, src)]
+                good = [1 for pred, args, pol in ec if pred == "eq" and pol is True and
+                        any(peel(x)[0] == "field" and peel(x)[2] == "denom" and same_origin(peel(x)[1], e0) for x in args) and
+                        any(contains(x, lambda y: is_param(y, "denom")) for x in args)]
+                if not good or len(ec) != len(good):
+                    bad.append("%s at line %s under %s" % (t["callee"]["name"], t["line"], [(p0, pol) for p0, a0, pol in ec]))
+            ctx.ob(R, key, "supply-adds-only-coins-of-the-queried-denomination", not bad,
+                   "an amount is added to the supply without (only) `coin.denom == denom` having held: %s" % bad, fn=g,
+                   sample="%d add site(s) guarded by coin.denom == denom" % len(sites) if sites else
+                   "NOT DECIDED: no `add(.., coin.amount)` site recognised in get_supply")
+            if sites:
+                res = [peel(v) for site, v in q.success_return_sites(P, g)]
+                ok = bool(res) and all(contains(v, lambda y: y[0] == "call" and y[1] == "cosmwasm_std::coin" and is_param(y[2][1], "denom")) for v in res)
+                ctx.ob(R, key, "supply-reported-in-the-queried-denomination", ok, "get_supply answers %s" % [fmt(v)[:80] for v in res], fn=g,
+                       sample="Ok(coin(supply, denom))")
 
 
 def r6(ctx, cfg):
